@@ -13,7 +13,63 @@ import Shentu.EVM.Bytes
 namespace Shentu.EVM
 open Shentu.Gen.Gas (OpInfo Dyn MemRule)
 
+/-- One Boolean per known deviation of the implementation from the Ethereum Yellow Paper /
+    execution-specs semantics: `true` = behave like /repo/vm, `false` = behave like the specification.
+    `Quirks.impl` is the model that is compared with the code; `Quirks.spec` is the specification mode. -/
+structure Quirks where
+  /-- CALLDATALOAD / CALLDATACOPY / CODECOPY / EXTCODECOPY with an offset beyond the data raise InputOutOfBounds (spec: zero padding) -/
+  readBeyondErr : Bool := true
+  /-- data offsets and JUMP destinations are popped with Pop64: words ≥ 2^64 raise IntegerOverflow -/
+  dataOffsetU64 : Bool := true
+  /-- a zero-length memory access still grows the memory to its offset, uncharged, so MSIZE is not word aligned (spec: no access) -/
+  zeroLenGrows : Bool := true
+  /-- no 1024-item limit on the data stack -/
+  noStackLimit : Bool := true
+  /-- offsets / lengths that overflow uint64 or exceed the memory cap give IntegerOverflow / Generic errors or Go panics (spec: out of gas) -/
+  hugeOffsetNotOog : Bool := true
+  /-- an exception of a callee other than REVERT (out of gas, INVALID, stack underflow, failed value transfer, write in a static
+      context …) is pushed into the CALLER's error sink and aborts it too (spec: the CALL pushes 0 and the caller goes on) -/
+  childExceptionAborts : Bool := true
+  /-- CALLCODE / DELEGATECALL / STATICCALL to an address without an account raise UnknownAddress (spec: a call into empty code succeeds) -/
+  callUnknownErr : Bool := true
+  /-- the return window of a call receives the whole return data, zero padded up to the window (spec: min(window, data) bytes) -/
+  callOutputWindow : Bool := true
+  /-- BALANCE / EXTCODESIZE / EXTCODECOPY of an address without an account raise NonExistentAccount (spec: 0 / zeros) -/
+  queryUnknownErr : Bool := true
+  /-- a CALL that cannot pay its value runs the callee anyway and then fails with InsufficientBalance / IntegerOverflow,
+      which aborts the caller (spec: the callee is not run, the CALL pushes 0) -/
+  valueFailAborts : Bool := true
+  /-- the callee of a STATICCALL sees the caller's CALLVALUE (spec: 0) -/
+  staticCallValue : Bool := true
+  /-- a CALL without value to an address without an account creates an empty account, in the caller's frame (spec: no account) -/
+  callCreatesAccount : Bool := true
+  /-- BLOCKHASH of a block that is not among the last 256 raises an error (spec: 0) -/
+  blockhashErr : Bool := true
+  /-- frames called from a static frame are not read-only themselves: their writes fail only when written back (spec: inherited) -/
+  staticNotInherited : Bool := true
+  deriving Repr, Inhabited
+
+def Quirks.impl : Quirks := {}
+def Quirks.spec : Quirks :=
+  { readBeyondErr := false, dataOffsetU64 := false, zeroLenGrows := false, noStackLimit := false, hugeOffsetNotOog := false,
+    childExceptionAborts := false, callUnknownErr := false, callOutputWindow := false, queryUnknownErr := false,
+    valueFailAborts := false, staticCallValue := false, callCreatesAccount := false, blockhashErr := false,
+    staticNotInherited := false }
+
+/-- ids of the deviation points (Frame.dev) -/
+def devName : Nat → String
+  | 1 => "read_beyond_data" | 2 => "data_offset_uint64" | 3 => "zero_length_grows_memory" | 4 => "stack_limit"
+  | 5 => "oversized_offset_panics" | 6 => "jump_dest_overflow_code"
+  | 7 => "child_exception_aborts_parent" | 8 => "call_unknown_address" | 9 => "call_output_window"
+  | 10 => "account_query_unknown_address" | 11 => "unpayable_call_aborts" | 12 => "static_call_value"
+  | 13 => "call_creates_empty_account" | 14 => "blockhash_out_of_range"
+  | _ => "unexplained"
+
+/-- a cost no gas allowance covers (specification mode: "this instruction runs out of gas") -/
+def hugeCost : Nat := 2 ^ 200
+
 structure Env where
+  q : Quirks := {}
   code : ByteArray
   opBits : ByteArray
   input : ByteArray
@@ -24,6 +80,26 @@ structure Env where
   height : Nat
   time : Nat        -- uint64(LastBlockTime().Unix())
   chainId : Nat     -- crypto.GetEthChainID(ChainID())
+  callType : Nat := 0        -- exec.CallType: 0 Call, 1 CallCode, 2 DelegateCall, 3 StaticCall
+  readOnly : Bool := false   -- this frame's cache is read-only and its event sink log-free (the callee of a STATICCALL)
+  fuelCap : Nat := 2 ^ 62    -- bound on the iterations of one frame (the specification mode runs with unlimited gas)
+
+/-- what a call frame hands back to `CallFromSite` / `CVM.Execute` -/
+structure CallRes where
+  ret : ByteArray := .empty
+  err : Option Err := none     -- engine.Call's error: the value transfer's first, then the code's
+  gasLeft : Nat := 0
+  world : World := []          -- the frame's cache at the end (adopted by the caller iff `err = none`)
+  dirty : Bool := false
+  removed : List Nat := []
+  logs : List Log := []        -- the frame's buffered events, oldest first
+  status : Nat := 0            -- 0 finished, 1 Go panic, 2 outside the model, 3 out of fuel
+  seen : Nat := 0
+  dev : Nat := 0
+  devs : Nat := 0
+
+/-- runs a callee frame: environment, gas allowance, the caller's cache, destroyed accounts -/
+abbrev ChildFn := Env → Nat → World → List Nat → CallRes
 
 -- ---------------------------------------------------------------- the generated table
 
@@ -90,7 +166,11 @@ def ensureCap (m : ByteArray) (cap : Nat) : Option ByteArray :=
   else some (m ++ zeros (cap - m.size))
 
 /-- Memory.Read(offset, length); `nil` is the empty string -/
-def memRead (o l : Nat) : M ByteArray := do
+def memRead (q : Quirks) (o l : Nat) : M ByteArray := do
+  if l == 0 && !q.zeroLenGrows then
+    let s ← getF
+    if o > s.mem.size then noteDev 3
+    return .empty
   if o ≥ U64 || l ≥ U64 then
     pushErr .generic
     return .empty
@@ -108,8 +188,11 @@ def memRead (o l : Nat) : M ByteArray := do
     else return m'.extract o cap
 
 /-- Memory.Write(offset, value) -/
-def memWrite (o : Nat) (v : ByteArray) : M Unit := do
-  if o ≥ U64 then
+def memWrite (q : Quirks) (o : Nat) (v : ByteArray) : M Unit := do
+  if v.size == 0 && !q.zeroLenGrows then
+    let s ← getF
+    if o > s.mem.size then noteDev 3
+  else if o ≥ U64 then
     pushErr .generic
   else
     let cap := (o + v.size) % U64
@@ -190,9 +273,28 @@ def calcMemSize (r : MemRule) : M (Nat × Bool) := do
   match r with
   | .mem64 a b => let x ← peek a; let y ← peek b; pure (memSize64 x y)
   | .memUint64 a n => let x ← peek a; pure (memSize64U x n)
+  | .mem64Comp a b c d =>
+    let x1 ← peek a; let x2 ← peek b
+    let (x, of) := memSize64 x1 x2
+    if of then pure (0, true)
+    else
+      let y1 ← peek c; let y2 ← peek d
+      let (y, of) := memSize64 y1 y2
+      if of then pure (0, true) else pure (max x y, false)
   | _ => pure (0, false)
 
-def dynGas (d : Dyn) (mem : Nat) : M (Option Nat) := do
+/-- memoryGas: memGasCost plus a constant, with overflow check -/
+def memoryGas (mem add : Nat) : M (Option Nat) := do
+  match ← memGasCost mem with
+  | none => pure none
+  | some g => if g + add ≥ U64 then pure none else pure (some (g + add))
+
+def addrOf (w : Nat) : Nat := w % 2 ^ 160
+
+/-- `GetAccount` through native.State: Burrow's precompiles answer with a sentinel account -/
+def accountKnown (w : World) (a : Nat) : Bool := a ∈ [1, 2, 3, 4, 5, 20] || (w.get a).isSome
+
+def dynGas (self : Nat) (d : Dyn) (mem : Nat) : M (Option Nat) := do
   match d with
   | .memOnly => memGasCost mem
   | .copyGas pos _ perWord =>
@@ -220,36 +322,60 @@ def dynGas (d : Dyn) (mem : Nat) : M (Option Nat) := do
     let x ← peek 0
     let y ← peek 1
     let s ← getF
-    let cur := ((s.storage.find? (·.1 == x)).map (·.2)).getD 0
+    let cur := s.world.sload self x
     if cur == 0 && y != 0 then pure (some (sstoreCost 0))
     else if cur != 0 && y == 0 then
       addRefund Shentu.Gen.Gas.sstoreRefund
       pure (some (sstoreCost 1))
     else if cur == y then pure (some (sstoreCost 2))
     else pure (some (sstoreCost 3))
+  | .call =>
+    let v ← peek 2
+    let a ← peek 1
+    let s ← getF
+    let mut gas := Shentu.Gen.Gas.GasCalls
+    if v != 0 && !accountKnown s.world (addrOf a) then gas := gas + Shentu.Gen.Gas.CallNewAccountGas
+    if v != 0 then gas := gas + Shentu.Gen.Gas.CallValueTransferGas
+    memoryGas mem gas
+  | .callCode =>
+    let v ← peek 2
+    memoryGas mem (if v != 0 then Shentu.Gen.Gas.GasCalls + Shentu.Gen.Gas.CallValueTransferGas else Shentu.Gen.Gas.GasCalls)
+  | .memoryGas add => memoryGas mem add
+  | .selfdestruct =>
+    let a ← peek 0
+    let s ← getF
+    addRefund Shentu.Gen.Gas.SelfdestructRefundGas
+    pure (some (if !accountKnown s.world (addrOf a) then Shentu.Gen.Gas.GasSelfdestruct + Shentu.Gen.Gas.GasCreateBySelfdestruct
+                else Shentu.Gen.Gas.GasSelfdestruct))
   | _ => pure (some 0)
 
-def dynPart (info : OpInfo) (d : Dyn) : M (Nat × Nat) := do
+def dynPart (q : Quirks) (self : Nat) (info : OpInfo) (d : Dyn) : M (Nat × Nat) := do
   let mut mem := 0
+  let mut oog := false
   match info.mem with
   | .none => pure ()
   | r =>
     let (m, of) ← calcMemSize r
-    if of then pushErr .integerOverflow
     let w := toWordSize m * 32
-    if w ≥ U64 then pushErr .integerOverflow
-    mem := w % U64
-  let g ← dynGas d mem
+    if !q.hugeOffsetNotOog && (of || w ≥ U64 || w > memCap) then
+      noteDev 5
+      oog := true
+    else
+      if of then pushErr .integerOverflow
+      if w ≥ U64 then pushErr .integerOverflow
+      mem := w % U64
+  if oog then return (hugeCost, 0)
+  let g ← dynGas self d mem
   match g with
-  | none => pushErr .generic
+  | none => if q.hugeOffsetNotOog then pushErr .generic else return (hugeCost, 0)
   | some _ => pure ()
   pure (g.getD 0, mem)
 
 /-- contract.go gasLookUp: the cost of the instruction and the (word aligned) memory size it needs.
     As side effects it charges the stack operations of its peeks and records overflow errors. -/
-def gasLookUp (info : OpInfo) : M (Nat × Nat) :=
+def gasLookUp (q : Quirks) (self : Nat) (info : OpInfo) : M (Nat × Nat) :=
   if info.dyn = .none then pure (info.static, 0)
-  else dynPart info info.dyn >>= fun gm => pure (info.static + gm.1, gm.2)
+  else dynPart q self info info.dyn >>= fun gm => pure (info.static + gm.1, gm.2)
 
 /-- contract.go expandMemory (after the cost has been charged): nothing when the error sink is set -/
 def expandMemory (mem : Nat) : M Unit := do
@@ -278,83 +404,314 @@ def jumpTo (env : Env) (to : Nat) : M Unit := do
 
 def word (b : ByteArray) : Nat := beNat b   -- LeftPadWord256 of at most 32 bytes
 
-def copyToMem (src : ByteArray) : M Ctl := do
+def copyToMem (q : Quirks) (src : ByteArray) : M Ctl := do
   let memOff ← pop
-  let off ← pop64
-  let len ← pop64
-  match subslice src off len with
-  | .err =>
-    pushErr .inputOutOfBounds
-    memWrite memOff .empty
-  | .panic => goPanic
-  | .ok b => memWrite memOff b
-  | .big n => memWriteBig memOff n
+  if q.readBeyondErr || q.dataOffsetU64 then
+    let off ← pop64
+    let len ← pop64
+    match subslice src off len with
+    | .err =>
+      pushErr .inputOutOfBounds
+      memWrite q memOff .empty
+    | .panic => goPanic
+    | .ok b => memWrite q memOff b
+    | .big n => memWriteBig memOff n
+  else
+    -- specification: bytes beyond the data read as zero (the length is bounded by the memory the cost lookup allowed)
+    let off ← pop
+    let len ← pop
+    if off ≥ U64 then noteDev 2 else if src.size < off then noteDev 1
+    memWrite q memOff (if len ≤ memCap then extractPad src off len else .empty)
   pure .next
 
-def isExt (op : Nat) : Bool := op ∈ [0x31, 0x3b, 0x3c, 0x3f, 0x40, 0xf0, 0xf1, 0xf2, 0xf4, 0xf5, 0xfa, 0xff]
+/-- JUMP / taken JUMPI -/
+def jumpWord (env : Env) (to : Nat) (viaPop64 : Bool) : M Unit := do
+  if to ≥ U64 then
+    if env.q.dataOffsetU64 then pushErr .integerOverflow
+    else
+      noteDev 6
+      pushErr .invalidJumpDest
+    if viaPop64 && env.q.dataOffsetU64 then jumpTo env 0   -- Pop64 read the word as 0 and the jump is still attempted
+  else jumpTo env to
 
-/-- opcodes with a case in the `switch` of execute (call family etc. excluded) -/
+/-- instructions outside the model: CREATE, CREATE2 -/
+def isExt (op : Nat) : Bool := op ∈ [0xf0, 0xf5]
+
+/-- opcodes with a case in the `switch` of execute (CREATE / CREATE2 excluded) -/
 def isKnown (op : Nat) : Bool :=
-  op ≤ 0x0b || (0x10 ≤ op && op ≤ 0x1d) || op == 0x20 || op == 0x30 || (0x32 ≤ op && op ≤ 0x3a) || op == 0x3d || op == 0x3e ||
-  (0x41 ≤ op && op ≤ 0x46) || (0x50 ≤ op && op ≤ 0x5b) || (0x60 ≤ op && op ≤ 0xa4) || op == 0xf3 || op == 0xfd || op == 0xfe
+  op ≤ 0x0b || (0x10 ≤ op && op ≤ 0x1d) || op == 0x20 || (0x30 ≤ op && op ≤ 0x46) || (0x50 ≤ op && op ≤ 0x5b) ||
+  (0x60 ≤ op && op ≤ 0xa4) || (0xf1 ≤ op && op ≤ 0xf4) || op == 0xfa || op == 0xfd || op == 0xfe || op == 0xff
 
-/-- instructions that end the frame: STOP, RETURN, REVERT, INVALID and every unknown opcode -/
-def isHalting (op : Nat) : Bool := op == 0x00 || op == 0xf3 || op == 0xfd || op == 0xfe || !isKnown op
+/-- instructions that end the frame: STOP, RETURN, REVERT, INVALID, SELFDESTRUCT and every unknown opcode -/
+def isHalting (op : Nat) : Bool := op == 0x00 || op == 0xf3 || op == 0xfd || op == 0xfe || op == 0xff || !isKnown op
 
-/-- instructions whose table cost can be 0 although they continue (EXP, RETURNDATACOPY, CHAINID, SSTORE,
-    LOG0-4 have `staticGas` 0): their first action is a charged stack operation -/
-def isFree (op : Nat) : Bool := op == 0x0a || op == 0x3e || op == 0x46 || op == 0x55 || (0xa0 ≤ op && op ≤ 0xa4)
+/-- instructions whose table cost can be 0 although they continue (EXP, RETURNDATACOPY, CHAINID, SSTORE, LOG0-4,
+    DELEGATECALL, STATICCALL have `staticGas` 0): their first action is a charged stack operation -/
+def isFree (op : Nat) : Bool :=
+  op == 0x0a || op == 0x3e || op == 0x46 || op == 0x55 || (0xa0 ≤ op && op ≤ 0xa4) || op == 0xf4 || op == 0xfa
 
 /-- the return value of a halting instruction -/
-def haltBody (op : Nat) : M ByteArray := do
+def haltBody0 (env : Env) (op : Nat) : M ByteArray := do
+  let q := env.q
   match op with
   | 0x00 => pure .empty
   | 0xf3 => do
     let o ← pop; let l ← pop
-    memRead o l
+    memRead q o l
   | 0xfd => do
     let o ← pop; let l ← pop
-    let out ← memRead o l
+    let out ← memRead q o l
     pushErr .executionReverted
     pure out
   | 0xfe => do pushErr .executionAborted; pure .empty
   | _ => do pushErr .generic; pure .empty           -- unknown opcode
 
-def execHalt (op : Nat) : M Ctl := haltBody op >>= fun r => pure (.halt r)
+/-- SELFDESTRUCT; `none` = outside the model -/
+def selfdestruct (env : Env) : M (Option ByteArray) := do
+  let receiver := addrOf (← pop)
+  useGas 1
+  let s ← getF
+  if receiver ≤ 0xff || s.removed.contains receiver then pure none   -- outside the model: natives, re-use of a destroyed address
+  else
+    let mut stop := false
+    if (s.world.get receiver).isNone then
+      useGas 1
+      if (s.world.get env.callee).isNone then
+        pushErr .generic                 -- CreateAccount checks the creator's permission: the running contract's account is gone
+        stop := true
+      else if env.readOnly then
+        pushErr .illegalWrite
+        stop := true
+      else setWorld (s.world.put { addr := receiver })
+    if !stop then
+      let s ← getF
+      let bal := ((s.world.get env.callee).map (·.balance)).getD 0
+      if (s.world.get env.callee).isNone then pushErr .nonExistentAccount
+      if env.readOnly then pushErr .illegalWrite
+      else
+        match s.world.get receiver with
+        | some r =>
+          if r.balance + bal ≥ U64 then pushErr .integerOverflow
+          else setWorld (s.world.put { r with balance := r.balance + bal })
+        | none => pushErr .nonExistentAccount
+        let s ← getF
+        if (s.world.get env.callee).isNone then pushErr .duplicateAddress
+        else
+          setWorld (s.world.del env.callee)
+          setRemoved (env.callee :: s.removed)
+    pure (some .empty)
 
-/-- what EXP, RETURNDATACOPY, SSTORE and LOGn do after their first Pop -/
-def freeRest (env : Env) (op : Nat) (a : Nat) : M Ctl := do
+/-- the return value of a halting instruction; `none` = outside the model -/
+def haltBody (env : Env) (op : Nat) : M (Option ByteArray) :=
+  if op == 0xff then selfdestruct env else haltBody0 env op >>= fun b => pure (some b)
+
+def execHalt (env : Env) (op : Nat) : M Ctl :=
+  haltBody env op >>= fun r => pure (match r with | some b => .halt b | none => .unsupported)
+
+-- ---------------------------------------------------------------- the call family
+
+/-- engine.Transfer inside the callee's frame -/
+def transfer (w : World) (frm to value : Nat) : Except Err World :=
+  if value ≥ 2 ^ 63 then .error .integerOverflow            -- !amount.IsInt64()
+  else if value == 0 then .ok w
+  else match w.get frm with
+    | none => .error .nonExistentAccount
+    | some f =>
+      if f.balance < value then .error .insufficientBalance
+      else
+        let w1 := w.put { f with balance := f.balance - value }
+        match w1.get to with
+        | none => .error .nonExistentAccount
+        | some t => if t.balance + value ≥ U64 then .error .integerOverflow else .ok (w1.put { t with balance := t.balance + value })
+
+/-- what `engine.CallFromSite` reports to the CALL instruction -/
+structure SiteRes where
+  ret : ByteArray := .empty
+  err : Option Err := none
+  refund : Nat := 0            -- what is added back to the frame's gas: the callee's remaining gas, or the raw operand after an early return
+  logs : List Log := []        -- the callee's buffered events (flushed by the caller iff `err = none`)
+  status : Nat := 0            -- 0 finished, 1 Go panic, 2 outside the model
+
+/-- what the caller's frame looks like after the callee has returned, and what the CALL instruction is told -/
+structure Settled where
+  world : World
+  dirty : Bool
+  removed : List Nat
+  res : SiteRes
+
+/-- The commit rule of `CallFromSite`: the callee's cache is written into the caller's (`Sync`) only if the callee
+    finished without error — and a read-only caller refuses any write, which turns the call into a failure.
+    The callee's buffered events are handed over only in the successful case. -/
+def settle (readOnly : Bool) (w : World) (dirty : Bool) (removed : List Nat) (r : CallRes) : Settled :=
+  match r.err with
+  | some e => ⟨w, dirty, removed, { ret := r.ret, err := some e, refund := r.gasLeft }⟩
+  | none =>
+    if readOnly && r.dirty then ⟨w, dirty, removed, { ret := r.ret, err := some .illegalWrite, refund := r.gasLeft }⟩
+    else if r.dirty then ⟨r.world, true, r.removed, { ret := r.ret, refund := r.gasLeft, logs := r.logs }⟩
+    else ⟨w, dirty, removed, { ret := r.ret, refund := r.gasLeft, logs := r.logs }⟩
+
+/-- engine.CallFromSite (Burrow execution/engine/call.go) followed by the caller-side Sync -/
+def callFromSite (child : ChildFn) (env : Env) (op gasLimit target value : Nat) (input : ByteArray) : M SiteRes := do
+  let s ← getF
+  if s.gas < 1 then return { err := some .insufficientGas, refund := gasLimit }     -- UseGasNegative(site.Gas, GasGetAccount)
+  takeGas 1
+  if target ≤ 0xff || s.removed.contains target then return { status := 2 }           -- natives / re-use of a destroyed address
+  let mut w := s.world
+  match w.get target with
+  | some _ => pure ()
+  | none =>
+    if op != 0xf1 then
+      if env.q.callUnknownErr then return { err := some .unknownAddress, refund := gasLimit }
+      else noteDev 8                   -- specification: a call into empty code
+    else if env.readOnly then
+      if env.q.callCreatesAccount || value != 0 then return { err := some .illegalWrite, refund := gasLimit }
+    else if env.q.callCreatesAccount || value != 0 then
+      -- CALL creates the missing account in the CALLER's frame: it stays even if the call then fails
+      w := w.put { addr := target }
+      setWorld w
+    else noteDev 13
+  -- specification: a CALL / CALLCODE that cannot pay its value does not run the callee
+  if !env.q.valueFailAborts && (op == 0xf1 || op == 0xf2) && value > ((w.get env.callee).map (·.balance)).getD 0 then
+    noteDev 11
+    return { err := some .insufficientBalance, refund := gasLimit }
+  let code := ((w.get target).map (·.code)).getD .empty
+  let s ← getF
+  let targetGas := if s.gas < gasLimit then s.gas - s.gas / 64 else gasLimit             -- the 63/64 rule
+  takeGas targetGas
+  let cenv : Env := { env with
+    code := code, opBits := opcodeBits code, input := input,
+    value := if op == 0xfa && !env.q.staticCallValue then 0 else value,
+    caller := if op == 0xf4 then env.caller else env.callee,
+    callee := if op == 0xf1 || op == 0xfa then target else env.callee,
+    callType := if op == 0xf1 then 0 else if op == 0xf2 then 1 else if op == 0xf4 then 2 else 3,
+    readOnly := op == 0xfa || (env.readOnly && !env.q.staticNotInherited) }
+  if op == 0xfa && !env.q.staticCallValue && value != 0 then noteDev 12
+  let r := child cenv targetGas w s.removed
+  orSeen r.seen r.dev r.devs
+  if r.status != 0 then return { status := if r.status == 3 then 2 else r.status }
+  let s ← getF
+  let st := settle env.readOnly s.world s.dirty s.removed r
+  applySettled st.world st.dirty st.removed
+  return st.res
+
+/-- `EnsurePermission(st.CallFrame, params.Callee, permission.Call)`: fails (a plain Go error, code Generic) when the
+    running contract's own account is gone — a DELEGATECALL / CALLCODE callee executed SELFDESTRUCT in its place -/
+def selfGone (env : Env) : M Bool := do
+  let s ← getF
+  pure (s.world.get env.callee).isNone
+
+/-- binary.RightPadBytes(returnData, int(retSize)) -/
+def rightPad (b : ByteArray) (l : Nat) : ByteArray := if l ≥ 2 ^ 63 || l < b.size then b else b ++ zeros (l - b.size)
+
+/-- CALL / CALLCODE / DELEGATECALL / STATICCALL after the gas operand has been popped -/
+def callRest (child : ChildFn) (env : Env) (op gasLimit : Nat) : M Ctl := do
+  setRetBuf .empty
+  let target := addrOf (← pop)
+  let value ← if op == 0xf1 || op == 0xf2 then pop else pure env.value
+  let inOff ← pop; let inSize ← pop
+  let retOff ← pop
+  let retSize ← pop64
+  withRefund do
+    let input ← memRead env.q inOff inSize
+    let r ← callFromSite child env op gasLimit target value input
+    if r.status == 1 then goPanic
+    else if r.status != 0 then pure (.unsupported, 0)
+    else
+      setRetBuf r.ret
+      if r.err.isSome then push 0
+      else
+        push 1
+        -- childSink.flush(): a log-free sink refuses the first event
+        if !r.logs.isEmpty then (if env.readOnly then pushErr .illegalWrite else addLogs r.logs)
+      match r.err with
+      | some .executionReverted | none =>
+        if !env.q.callOutputWindow then
+          if r.ret.size != retSize then noteDev 9
+          memWrite env.q retOff (r.ret.extract 0 (min retSize r.ret.size))
+        else if retSize < 2 ^ 63 && retSize > r.ret.size && retSize > memCap then memWriteBig retOff retSize
+        else memWrite env.q retOff (rightPad r.ret retSize)
+      | some e =>
+        if env.q.childExceptionAborts then pushErr e
+        else
+          noteDev 7                   -- specification: the caller goes on with 0 on its stack and an empty return buffer
+          setRetBuf .empty
+      pure (.next, r.refund)
+
+/-- what EXP, RETURNDATACOPY, SSTORE, LOGn, DELEGATECALL and STATICCALL do after their first Pop -/
+def freeRest (child : ChildFn) (env : Env) (op : Nat) (a : Nat) : M Ctl := do
   match op with
   | 0x0a => do
     let x := a; let y ← pop
     push (modPow x y W); pure .next
   | 0x3e => do
     let memOff := a; let off ← pop; let len ← pop
-    if off + len ≥ U64 || 0 < off + len then
+    let s ← getF
+    if off + len ≥ U64 || s.retBuf.size < off + len then
       pushErr .returnDataOutOfBounds
       pure .jumped
     else
-      memWrite memOff .empty
+      memWrite env.q memOff (s.retBuf.extract off (off + len))
       pure .next
   | 0x55 => do
     let k := a; let v ← pop
     useGas 1
-    let s ← getF
-    setStorage ((k, v) :: s.storage.filter (·.1 != k)); pure .next
+    if env.readOnly then pushErr .illegalWrite
+    else
+      let s ← getF
+      if (s.world.get env.callee).isNone then pushErr .illegalWrite else setWorld (s.world.sstore env.callee k v)
+    pure .next
+  | 0xf4 => do if ← selfGone env then pure .unsupported else callRest child env op a
+  | 0xfa => do if ← selfGone env then pure .unsupported else callRest child env op a
   | _ => do                                        -- LOG0 … LOG4
     let o := a; let l ← pop
     let mut topics : List Nat := []
     for _ in [0:op - 0xa0] do
       topics := (← pop) :: topics
-    let data ← memRead o l
-    addLog ⟨env.callee, topics.reverse, data⟩
+    let data ← memRead env.q o l
+    if env.readOnly then pushErr .illegalWrite else addLog ⟨env.callee, topics.reverse, data⟩
     pure .next
 
-def execFree (env : Env) (op : Nat) : M Ctl :=
+def execFree (child : ChildFn) (env : Env) (op : Nat) : M Ctl :=
   if op == 0x46 then push (u256 env.chainId) >>= fun _ => pure .next
-  else pop >>= fun a => freeRest env op a
+  else pop >>= fun a => freeRest child env op a
 
-def execRegular (env : Env) (op : Nat) : M Ctl := do
+/-- BALANCE, EXTCODESIZE, EXTCODECOPY, EXTCODEHASH, BLOCKHASH -/
+def execQuery (env : Env) (op : Nat) : M Ctl := do
+  if op == 0x40 then
+    let n ← pop64
+    if n ≥ env.height || env.height - n > 256 then
+      if env.q.blockhashErr then pushErr (if n ≥ env.height then .invalidBlockNumber else .blockNumberOutOfRange)
+      else
+        noteDev 14
+        push 0
+    else push n                                    -- the harness' stub: the block number as a 32-byte hash
+    pure .next
+  else
+    let a := addrOf (← pop)
+    if op != 0x3f then useGas 1
+    let s ← getF
+    if a ≤ 0xff || s.removed.contains a then pure .unsupported
+    else
+      let acc := s.world.get a
+      if acc.isNone && op != 0x3f && !env.q.queryUnknownErr then noteDev 10
+      let unknownErr := acc.isNone && env.q.queryUnknownErr
+      match op with
+      | 0x31 =>
+        if unknownErr then pushErr .nonExistentAccount
+        push ((acc.map (·.balance)).getD 0); pure .next
+      | 0x3b =>
+        if unknownErr then pushErr .nonExistentAccount
+        push ((acc.map (·.code.size)).getD 0); pure .next
+      | 0x3c =>
+        if unknownErr then pushErr .nonExistentAccount
+        copyToMem env.q ((acc.map (·.code)).getD .empty)
+      | _ =>
+        match acc with
+        | none => push 0
+        | some x => push (word (Keccak.keccak256 x.code))
+        pure .next
+
+def execRegular (child : ChildFn) (env : Env) (op : Nat) : M Ctl := do
   match op with
   | 0x01 => binop (· + ·)
   | 0x02 => binop (· * ·)
@@ -408,28 +765,52 @@ def execRegular (env : Env) (op : Nat) : M Ctl := do
   | 0x20 => do
     useGas 1
     let o ← pop; let l ← pop
-    let data ← memRead o l
+    let data ← memRead env.q o l
     push (word (Keccak.keccak256 data)); pure .next
   | 0x30 => do push env.callee; pure .next
   | 0x32 => do push env.origin; pure .next
   | 0x33 => do push env.caller; pure .next
   | 0x34 => do push (u256 env.value); pure .next
   | 0x35 => do
-    let off ← pop64
-    match subslice env.input off 32 with
-    | .err =>
-      pushErr .inputOutOfBounds
-      push 0
-    | .panic => goPanic
-    | .ok b => push (word b)
-    | .big _ => goPanic        -- not reached: the length is 32
+    if env.q.readBeyondErr || env.q.dataOffsetU64 then
+      let off ← pop64
+      match subslice env.input off 32 with
+      | .err =>
+        pushErr .inputOutOfBounds
+        push 0
+      | .panic => goPanic
+      | .ok b => push (word b)
+      | .big _ => goPanic        -- not reached: the length is 32
+    else
+      let off ← pop
+      if off ≥ U64 then noteDev 2 else if env.input.size < off then noteDev 1
+      push (word (extractPad env.input off 32))
     pure .next
   | 0x36 => do push env.input.size; pure .next
-  | 0x37 => copyToMem env.input
+  | 0x37 => copyToMem env.q env.input
   | 0x38 => do push env.code.size; pure .next
-  | 0x39 => copyToMem env.code
+  | 0x39 => copyToMem env.q env.code
   | 0x3a => do push 0; pure .next
-  | 0x3d => do push 0; pure .next            -- the return buffer of a single frame is empty
+  | 0x3d => do let s ← getF; push s.retBuf.size; pure .next
+  | 0x31 => execQuery env op
+  | 0x3b => execQuery env op
+  | 0x3c => execQuery env op
+  | 0x3f => execQuery env op
+  | 0x40 => execQuery env op
+  | 0xf1 => do
+    if ← selfGone env then
+      pushErr .generic
+      pure .jumped
+    else
+      let g ← pop
+      callRest child env op g
+  | 0xf2 => do
+    if ← selfGone env then
+      pushErr .generic
+      pure .jumped
+    else
+      let g ← pop
+      callRest child env op g
   | 0x41 => do push 0; pure .next
   | 0x42 => do push env.time; pure .next
   | 0x43 => do push env.height; pure .next
@@ -438,26 +819,29 @@ def execRegular (env : Env) (op : Nat) : M Ctl := do
   | 0x50 => do let _ ← pop; pure .next
   | 0x51 => do
     let o ← pop
-    let d ← memRead o 32
+    let d ← memRead env.q o 32
     push (word d); pure .next
   | 0x52 => do
     let o ← pop; let v ← pop
-    memWrite o (natBE v 32); pure .next
+    memWrite env.q o (natBE v 32); pure .next
   | 0x53 => do
     let o ← pop; let v ← pop
-    memWrite o (natBE (v % 256) 1); pure .next
+    memWrite env.q o (natBE (v % 256) 1); pure .next
   | 0x54 => do
     let k ← pop
     let s ← getF
-    push (((s.storage.find? (·.1 == k)).map (·.2)).getD 0); pure .next
+    if (s.world.get env.callee).isNone then pure .unsupported     -- the cache still answers for a destroyed account
+    else
+      push (s.world.sload env.callee k); pure .next
   | 0x56 => do
-    let to ← pop64
-    jumpTo env to; pure .jumped
+    let to ← pop
+    jumpWord env to true
+    pure .jumped
   | 0x57 => do
     let to ← pop
     let c ← pop
     if c != 0 then
-      if to ≥ U64 then pushErr .integerOverflow else jumpTo env to
+      jumpWord env to false
       pure .jumped
     else pure .next
   | 0x58 => do let s ← getF; push s.pc; pure .next
@@ -481,11 +865,11 @@ def execRegular (env : Env) (op : Nat) : M Ctl := do
     else if 0x90 ≤ op && op ≤ 0x9f then do swap (op - 0x90 + 2); pure .next
     else do pushErr .generic; pure (.halt .empty)   -- not reached: `exec` sends every other opcode elsewhere
 
-def exec (env : Env) (op : Nat) : M Ctl :=
+def exec (child : ChildFn) (env : Env) (op : Nat) : M Ctl :=
   if isExt op then pure .unsupported
-  else if isHalting op then execHalt op
-  else if isFree op then execFree env op
-  else execRegular env op
+  else if isHalting op then execHalt env op
+  else if isFree op then execFree child env op
+  else execRegular child env op
 
 -- ---------------------------------------------------------------- the loop
 
@@ -509,21 +893,33 @@ def finish (c : Ctl) : M Step :=
 
 /-- the body of one iteration for opcode `op`: look the cost up (side effects included), charge
     it or stop with InsufficientGas, run the instruction -/
-def stepBody (env : Env) (op : Nat) : M Step :=
-  (noteSeen op >>= fun _ => gasLookUp (opInfo op)) >>= fun cm =>
+def stepBody (child : ChildFn) (env : Env) (op : Nat) : M Step :=
+  (noteSeen op >>= fun _ => gasLookUp env.q env.callee (opInfo op)) >>= fun cm =>
   chargeOrStop cm.1 >>= fun ok =>
-  if ok then (expandMemory cm.2 >>= fun _ => exec env op) >>= finish
+  if ok then
+    expandMemory cm.2 >>= fun _ => getF >>= fun s =>
+    match s.err with
+    | some e => pure (.done .empty (some e))   -- the cost or the memory need could not be computed: the instruction does not run
+    | none => exec child env op >>= finish
   else pure (.done .empty (some .insufficientGas))
 
 def opAt (env : Env) (pc : Nat) : Nat := if env.code.size ≤ pc then 0 else (env.code.get! pc).toNat
 
+/-- storage access by a contract whose own account was destroyed under it (SELFDESTRUCT in a DELEGATECALL / CALLCODE
+    callee): Burrow's cache keeps answering from the removed entry; not modelled -/
+def outsideModel (env : Env) (s : Frame) : Bool :=
+  (opAt env s.pc == 0x54 || opAt env s.pc == 0x55) && (s.world.get env.callee).isNone
+
 /-- one iteration of the `for` loop of `execute` -/
-def step (env : Env) : M Step := fun s =>
+def step (child : ChildFn) (env : Env) : M Step := fun s =>
   match s.err with
   | some e => ⟨(some (.done .empty (some e)), s), Inv.refl s⟩
   | none =>
-    if isExt (opAt env s.pc) then ⟨(some .unsupported, s), Inv.refl s⟩
-    else stepBody env (opAt env s.pc) s
+    if isExt (opAt env s.pc) || outsideModel env s then ⟨(some .unsupported, s), Inv.refl s⟩
+    else if !env.q.noStackLimit && s.stack.length > 1024 then
+      -- specification: the instruction that pushed the 1025th item was an exceptional halt
+      (noteDev 4 >>= fun _ => pure (.done .empty (some .dataStackOverflow))) s
+    else stepBody child env (opAt env s.pc) s
 
 inductive Outcome where
   | done (ret : ByteArray) (err : Option Err)
@@ -531,12 +927,12 @@ inductive Outcome where
   | unsupported
   | outOfFuel
 
-def run (env : Env) : Nat → Frame → Outcome × Frame
+def run (child : ChildFn) (env : Env) : Nat → Frame → Outcome × Frame
   | 0, s => (.outOfFuel, s)
   | fuel + 1, s =>
-    match step env s with
+    match step child env s with
     | ⟨(none, s'), _⟩ => (.panic, s')
-    | ⟨(some .cont, s'), _⟩ => run env fuel s'
+    | ⟨(some .cont, s'), _⟩ => run child env fuel s'
     | ⟨(some (.done r e), s'), _⟩ => (.done r e, s')
     | ⟨(some .unsupported, s'), _⟩ => (.unsupported, s')
 
@@ -544,32 +940,46 @@ end Shentu.EVM
 
 namespace Shentu.EVM
 
-/-- what the caller of `CVM.Execute` observes -/
-structure Result where
-  outcome : Outcome
-  err : Option Err              -- engine.Call's accumulated error (transfer error first)
-  ret : ByteArray
-  gasLeft : Nat
-  storage : List (Nat × Nat)    -- the callee's non-zero slots after the call
-  logs : List Log               -- oldest first, as handed to the event sink
-  frame : Frame
+/-- `engine.Call`, first half: the value transfer (CALL and CALLCODE only) inside the frame's own cache.
+    Result: the cache the code starts with, the transfer's error, whether the cache was written. -/
+def openFrame (env : Env) (w : World) : World × Option Err × Bool :=
+  if env.callType ≤ 1 then
+    match transfer w env.caller env.callee env.value with
+    | .ok w' => (w', none, env.value != 0)
+    | .error e => (w, some e, false)
+  else (w, none, false)
+
+/-- `execute`: nothing to do without code, else the interpreter loop -/
+def frameRun (child : ChildFn) (env : Env) (s0 : Frame) : Outcome × Frame :=
+  if env.code.size == 0 then (Outcome.done .empty none, s0) else run child env (min (s0.gas + 2) env.fuelCap) s0
+
+/-- `engine.Call`, second half: the transfer's error comes first, but the code has run anyway -/
+def packRes (terr : Option Err) (o : Outcome) (s : Frame) : CallRes :=
+  match o with
+  | .done r e =>
+    { ret := r, err := if terr.isSome then terr else e, gasLeft := s.gas, world := s.world, dirty := s.dirty,
+      removed := s.removed, logs := s.logs.reverse, seen := s.seen, dev := s.dev, devs := s.devs }
+  | .panic => { status := 1, gasLeft := s.gas, logs := s.logs.reverse, seen := s.seen, dev := s.dev, devs := s.devs }
+  | .unsupported => { status := 2, gasLeft := s.gas, seen := s.seen, dev := s.dev, devs := s.devs }
+  | .outOfFuel => { status := 3, gasLeft := s.gas, seen := s.seen, dev := s.dev, devs := s.devs }
+
+/-- one call frame as `engine.Call` runs it -/
+def runFrame (child : ChildFn) (env : Env) (gas : Nat) (w : World) (removed : List Nat) : CallRes :=
+  let t := openFrame env w
+  let os := frameRun child env { gas := gas, world := t.1, dirty := t.2.2, removed := removed }
+  packRes t.2.1 os.1 os.2
+
+/-- frames nested at most `d` deep below this one; deeper calls are outside the model -/
+def runDepth : Nat → ChildFn
+  | 0 => fun _ g _ _ => { status := 2, gasLeft := g }
+  | d + 1 => fun env g w r => runFrame (runDepth d) env g w r
 
 def normStorage (st : List (Nat × Nat)) : List (Nat × Nat) :=
   (st.filter (·.2 != 0)).mergeSort (fun a b => a.1 ≤ b.1)
 
-/-- `CVM.Execute` → `engine.Call` → `execute`, then `Sync` iff there was no error.
-    The value transfer happens (and may fail) before the code runs; the code runs anyway. -/
-def execTop (env : Env) (gas callerBal : Nat) (pre : List (Nat × Nat)) : Result :=
-  let transferErr := if env.value != 0 && callerBal < env.value then some Err.insufficientBalance else none
-  let s0 : Frame := { gas := gas, storage := pre }
-  let (o, s) := if env.code.size == 0 then (Outcome.done .empty none, s0) else run env (gas + 2) s0
-  let (ret, err) := match o with
-    | .done r e => (r, if transferErr.isSome then transferErr else e)
-    | _ => (ByteArray.empty, none)
-  let committed := match o with
-    | .done _ _ => err.isNone
-    | _ => false
-  { outcome := o, err := err, ret := ret, gasLeft := s.gas,
-    storage := normStorage (if committed then s.storage else pre), logs := s.logs.reverse, frame := s }
+/-- `CVM.Execute`: the outermost frame; its cache is written back (`Sync`) iff there was no error -/
+def execTop (env : Env) (gas : Nat) (pre : World) (depth : Nat := 8) : CallRes :=
+  let r := runFrame (runDepth depth) env gas pre []
+  if r.status == 0 && r.err.isNone then r else { r with world := pre }
 
 end Shentu.EVM
